@@ -10,6 +10,8 @@ For each seeded/<id>/ (patch.diff, demo.py, meta.json) this script
   5. runs the check(s) of the property with VERIF_REPO=<worktree> (expected: exit 1 with VIOLATION lines),
   6. removes the worktree, and records the outcome in seeded/<id>/result.json.
 Nothing is ever applied to /repo itself.
+A directory whose meta.json says "benign": true holds a property-PRESERVING change (benign/<id>/): there the expected
+outcome is exit 0 of the check (result.json gets "alarm": false); an alarm is a false alarm of the check.
 """
 from __future__ import annotations
 
@@ -88,6 +90,10 @@ def evaluate(seed_dir: Path, tier: str, tests: bool, props=None):
                 "wall_s": round(time.time() - t0, 1),
             }
         res["detected"] = any(c["rc"] == 1 and c["violations"] > 0 for c in res["checks"].values())
+        if meta.get("benign"):
+            # a benign (property-preserving) change: the expected outcome is exit 0 of every check
+            res["benign"] = True
+            res["alarm"] = any(c["rc"] != 0 for c in res["checks"].values())
     finally:
         run(["git", "-C", "/repo", "worktree", "remove", "--force", str(wt)])
         shutil.rmtree(wt, ignore_errors=True)
@@ -106,8 +112,11 @@ def main():
     rc = 0
     for s in a.seeds:
         r = evaluate(Path(s).resolve(), a.tier, a.tests, [p for p in a.props.split(",") if p] or None)
-        print(json.dumps({k: v for k, v in r.items() if k in ("seed", "property", "demo_clean_rc", "demo_patched_rc", "tests_rc", "detected", "error", "checks")}))
-        if not r.get("detected"):
+        print(json.dumps({k: v for k, v in r.items() if k in ("seed", "property", "demo_clean_rc", "demo_patched_rc", "tests_rc", "detected", "benign", "alarm", "error", "checks")}))
+        if r.get("benign"):
+            if r.get("alarm") or r.get("error"):
+                rc = 1
+        elif not r.get("detected"):
             rc = 1
     return rc
 
